@@ -132,6 +132,8 @@ def tlcp_client(sock, deviation, client_chain=b"", client_d=0, other_d=12345, pr
         lst = b"" if deviation.startswith("empty_cert") else b"".join(u24(len(c)) + c for c in chain)
         p.send_hs(11, u24(len(lst)) + lst)
     pre_cke = p.transcript
+    if deviation == "ccs_early":            # ChangeCipherSpec before the key exchange
+        p.send_record(20, b"\x01")
     if tlcp:
         C1, C2, C3 = sm2ref.encrypt(encP, pms, 0x1234567890abcdef1234567890abcdef)
         ct = derw.seq(derw.dint(C1[0]), derw.dint(C1[1]), derw.doctets(C3), derw.doctets(C2))
@@ -146,10 +148,19 @@ def tlcp_client(sock, deviation, client_chain=b"", client_d=0, other_d=12345, pr
         r_, s_ = sm2ref.sign(d, P, sm3(tr) if tlcp else tr, 0x3333333333333333333333333333333333333333)
         sig = derw.seq(derw.dint(r_), derw.dint(s_))
         p.send_hs(15, u16(len(sig)) + sig)
-    p.send_record(20, b"\x01")
-    p.enc_out = True
+    if deviation != "no_ccs":
+        p.send_record(20, b"\x01")
+    if deviation == "ccs_twice":
+        p.send_record(20, b"\x01")
+    p.enc_out = deviation != "finished_plain"
     vd = prf(master, b"client finished", sm3(p.transcript), 12)
-    p.send_hs(20, vd)
+    if deviation == "finished_wrong":
+        vd = bytes([vd[0] ^ 1]) + vd[1:]
+    if deviation != "no_finished":
+        p.send_hs(20, vd)
+    p.enc_out = True
+    if deviation == "no_finished":          # straight to application data
+        p.send_record(23, b"ping")
     # server: CCS, Finished
     res = {"completed": False, "creq": creq}
     r = p.recv_record()
